@@ -83,7 +83,8 @@ E2E = {
 }
 
 TRANSLATED = {
- 'C02': 'Bitboard::make / make_castle and the Move word setters/getters with the constants of constants.rs (rs_make_eq, rs_make_generated: no panic on any generated move of a well-formed board; rs_move_encode_eq, rs_move_decode_eq, rs_move_masks, rs_move_shifts)',
+ 'C01': 'the whole move generator: make_move (side effects of a move computed at generation time), sliding_moves, single_moves, pawn_attacks, pawn_moves, castle_moves, the bit-scan loops, generate_pseudo_legal_moves, generate_pseudo_legal_non_quiescent_moves, generate_legal_moves, is_any_move_legal — each equal to the model function as lists in the same order, and rs_generate_legal_eq_rules: on a well-formed board the TRANSLATED generate_legal_moves never panics and returns exactly the legal moves of the rules Spec (no duplicates), leaving the position intact',
+ 'C02': 'make_move (rs_make_move_ctor_eq), Bitboard::make / make_castle and the Move word setters/getters with the constants of constants.rs (rs_make_eq, rs_make_generated: no panic on any generated move of a well-formed board; rs_move_encode_eq, rs_move_decode_eq, rs_move_masks, rs_move_shifts)',
  'C03': 'Bitboard::unmake / unmake_castle / make / is_move_legal and the Move word (rs_unmake_eq, rs_make_eq, rs_unmake_generated, rs_is_move_legal_generated, rs_move_roundtrip)',
  'C04': 'magic_hash, MagicConfiguration::get_attacks (the unchecked access is undefined exactly when the model index is out of range), Magics::get_attacks (rs_magic_hash_eq, rs_magic_get_attacks_eq, rs_rook_attacks_eq, rs_bishop_attacks_eq)',
  'C05': 'Bitboard::is_valid, is_current_in_check, is_in_check, _is_square_in_check (rs_is_square_in_check_eq, rs_is_in_check_eq, rs_is_current_in_check_eq, rs_is_valid_eq)',
